@@ -107,16 +107,16 @@ func convertTypes(p *core.Program) (map[string]types.Type, map[string]string, *s
 	for fmtStr, blk := range formatSwitch(f) {
 		var t types.Type
 		for _, r := range returnsInCase(blk, nil) {
-			if len(r.Results) != 1 {
+			if len(res(r)) != 1 {
 				continue
 			}
-			for _, s := range core.Sources(r.Results[0]) {
+			for _, s := range core.Sources(res(r)[0]) {
 				if s == ssa.Value(f.Params[1]) {
 					problems[fmtStr] = "returns its input unchanged"
 					continue
 				}
 				var st types.Type
-				if mi, ok := r.Results[0].(*ssa.MakeInterface); ok {
+				if mi, ok := res(r)[0].(*ssa.MakeInterface); ok {
 					st = mi.X.Type()
 				} else {
 					st = s.Type()
@@ -172,7 +172,7 @@ func c12r1(c *core.Ctx) {
 	// no path returns the input parameter itself
 	ident := false
 	core.Instrs(f, func(i ssa.Instruction) {
-		if r, ok := i.(*ssa.Return); ok && len(r.Results) == 1 && valIs(r.Results[0], f.Params[1]) {
+		if r, ok := i.(*ssa.Return); ok && len(res(r)) == 1 && valIs(res(r)[0], f.Params[1]) {
 			// allowed only if unreachable for every declared format: i.e. it is the default after all cases
 			covered := true
 			for _, v := range consts {
@@ -440,10 +440,10 @@ func c12r4(c *core.Ctx) {
 	n := 0
 	core.Instrs(f, func(i ssa.Instruction) {
 		r, ok := i.(*ssa.Return)
-		if !ok || len(r.Results) != 1 {
+		if !ok || len(res(r)) != 1 {
 			return
 		}
-		mi, ok := r.Results[0].(*ssa.MakeInterface)
+		mi, ok := res(r)[0].(*ssa.MakeInterface)
 		if !ok {
 			return
 		}
